@@ -98,6 +98,8 @@ type streamDebugger struct {
 	opScript, opIdx, opCount int
 	incons                   string
 	stackChecks              int
+	opVal, sepBefore         int
+	sepChecks                int
 }
 
 func (d *streamDebugger) ev(kind byte, s *interpreter.State, data []byte) {
@@ -108,7 +110,21 @@ func (d *streamDebugger) ev(kind byte, s *interpreter.State, data []byte) {
 	switch kind {
 	case evBeforeExecuteOpcode:
 		d.inOp, d.opScript, d.opIdx, d.opCount = true, s.ScriptIdx, s.OpcodeIdx, len(s.Scripts)
-	case evAfterExecuteOpcode, evAfterStep, evAfterError, evAfterExecute:
+		d.opVal, d.sepBefore = -1, s.LastCodeSeparatorIdx
+		if s.ScriptIdx < len(s.Scripts) && s.OpcodeIdx < len(s.Scripts[s.ScriptIdx]) {
+			d.opVal = int(s.Scripts[s.ScriptIdx][s.OpcodeIdx].Value())
+		}
+	case evAfterStep:
+		// the code-separator position a snapshot reports only moves when an
+		// OP_CODESEPARATOR was the instruction, and then to that instruction
+		if d.opVal >= 0 && s.ScriptIdx == d.opScript && !s.IsFinished {
+			d.sepChecks++
+			if l := s.LastCodeSeparatorIdx; d.incons == "" && l != d.sepBefore && !(d.opVal == 0xab && l == d.opIdx) {
+				d.incons = fmt.Sprintf("callback %d (AfterStep): LastCodeSeparatorIdx went from %d to %d over the instruction 0x%02x at offset %d of script %d", len(d.events)-1, d.sepBefore, l, d.opVal, d.opIdx, d.opScript)
+			}
+		}
+		d.inOp, d.opVal = false, -1
+	case evAfterExecuteOpcode, evAfterError, evAfterExecute:
 		d.inOp = false
 	case evBeforeStackPush, evAfterStackPush, evBeforeStackPop, evAfterStackPop:
 		if d.inOp {
@@ -381,6 +397,7 @@ func c19Judge(c *mon.Ctx, in *progInput) {
 	}
 	// (c') the snapshots handed to the stack callbacks of an instruction are positioned at that instruction and show the pushed element
 	c.CountN("C19:stack-callback-snapshot-checks", int64(rec.stackChecks))
+	c.CountN("C19:code-separator-position-checks", int64(rec.sepChecks))
 	if rec.incons != "" {
 		good = false
 		c.Violationf("C19:stack-callback-snapshot-inconsistent:"+e, "%s; unlock=%x lock=%x flags=%#x", rec.incons, []byte(in.Unlock), []byte(in.Lock), in.Flags)
